@@ -462,6 +462,13 @@ def run(ctx):
     C04_shapes.run(ctx, nt, gen_cases)
     # <<< a_c04
 
+    # >>> w_fwd (wave 5): the method tables of the seven binary Deserializer impls (Tables.de_tables, generated from
+    # src/binary/de.rs) against the real deserializers: every method x token kind x strategy x position x path through a
+    # recording visitor; the extracted DeMethods.predict must observe the same visits (props/demeth.py, Props/C04_methods.v)
+    from props import demeth
+    demeth.run_bin(ctx)
+    # <<< w_fwd
+
     # scalar level: extracted Serde.bin_scalar against the real on-demand path
     from props import descalar
     ctx.correspond("scalar-tokens", descalar.bin_cases(ctx, ctx.scale(150, 1500)), nontrivial=nt)
